@@ -66,7 +66,8 @@ type sess struct {
 	MayLive  bool     // some possibility in which the session exists
 	LoggedIn int      // number of completed logins
 	Foreign  bool     // never sent in a Set-Cookie by the service
-	DeadAt   int      // step index at which it certainly died (-1 alive / unknown)
+	Created  time.Time
+	DeadAt   int // step index at which it certainly died (-1 alive / unknown)
 }
 
 type step struct {
@@ -261,7 +262,7 @@ func (h *H) updateModel(s *step) {
 	}
 	switch {
 	case h.w.IsLoginRedirect(r) && s.NewID != "":
-		ns := &sess{ID: s.NewID, By: -1, Pending: true, MayLive: true, DeadAt: -1}
+		ns := &sess{ID: s.NewID, By: -1, Pending: true, MayLive: true, DeadAt: -1, Created: s.Now}
 		if s.B != nil {
 			for i, b := range h.bs {
 				if b == s.B {
@@ -290,6 +291,14 @@ func (h *H) updateModel(s *step) {
 	for _, tc := range s.Calls {
 		if !tc.Accepted || tc.Dropped == "before" {
 			continue
+		}
+		// an answer whose ID token the service must refuse (bad signature, audience or - at login - nonce) can never
+		// legitimately end up in the session, fault or no fault
+		if tc.IDToken != "" && tc.IDClaims != nil && !(tc.IDSigOK && tc.IDAudOK && (tc.Grant != "authorization_code" || tc.IDNonceOK)) {
+			continue
+		}
+		if tc.Grant == "authorization_code" && (tc.IDToken == "" || tc.IDClaims == nil) {
+			continue // a login needs an ID token
 		}
 		switch tc.Grant {
 		case "authorization_code":
@@ -352,6 +361,10 @@ func (h *H) justified(s *step) (bool, string) {
 		ss := h.issued[id]
 		if ss == nil {
 			why = fmt.Sprintf("session id %q was never issued", short(id, 20))
+			continue
+		}
+		if abs := h.w.Opts.Abs; abs > 0 && !ss.Created.IsZero() && s.Now.After(ss.Created.Add(abs+time.Second)) {
+			why = fmt.Sprintf("session %s exceeded its absolute timeout of %v (created %v, now %v)", short(id, 12), abs, ss.Created.Format("15:04:05"), s.Now.Format("15:04:05"))
 			continue
 		}
 		if len(ss.Toks) == 0 {
